@@ -75,6 +75,8 @@ type Spec struct {
 	NonHermetic bool `json:"non_hermetic,omitempty"`
 	// TrapTerm: the command's shell traps SIGTERM/SIGINT and carries on; only SIGKILL stops it.
 	TrapTerm bool `json:"trap_term,omitempty"`
+	// CheckMS: how long each output check of this target runs (fake clock)
+	CheckMS int `json:"check_ms,omitempty"`
 	// BinNoChmod: the command leaves its bin output non-executable and relies on grog marking
 	// it executable (documented for bin_output).
 	BinNoChmod bool `json:"bin_no_chmod,omitempty"`
